@@ -344,7 +344,8 @@ def run_replicator_level(ctx, viol):
 
 THEOREMS = ["C39_any_join_converges", "C39_any_join_is_join_of_sent", "C39_replicator_store_converges", "C39_gcounter_full_state",
             "C39_gcounter_delta_partial", "C39_gcounter_delta_wrap_refuted", "C39_orset_full_state_partial",
-            "C39_orset_delta_refuted", "C39_orset_delta_add_remove_refuted"]
+            "C39_orset_delta_refuted", "C39_orset_delta_add_remove_refuted", "C39_delta_is_full_state", "C39_mvregister_converges",
+            "C39_lww_converges", "C39_ormap_order_refuted"]
 
 META = {
     "ready": True,
